@@ -49,7 +49,8 @@ RULE = ("(template, identifier) pairs: templates from a grammar prefix+go+betwee
         "lower/UPPER/Title/mixed casing, ASCII, unicode (incl. runes whose upper-casing changes the UTF-8 length) and "
         "invalid-byte prefixes/separators/suffixes, plus missing / reordered / repeated / look-alike words and random "
         "byte strings, and a config stream (template -> config.NewConfig -> FileNamingFormat: empty, blank and near-blank templates, "
-        "templates wrapped in white space of 13 kinds), and for 30% of the cases a history of 3-10 configuration operations in the same "
+        "templates wrapped in white space of 13 kinds; styles containing other product words such as zero/Zero/ZERO/goctl/design in "
+        "prefix, separator, suffix or in place of designer), and for 30% of the cases a history of 3-10 configuration operations in the same "
         "process (NewConfig of the default / explicit / blank styles, owner assignments to cfg.NamingFormat, reads, formatting "
         "with a kept configuration, unknown handles); identifiers: snake, camel, Pascal, acronyms, repeated/leading/trailing underscores, digit words, "
         "punctuation and spaces, a fixed set of non-ASCII runes, invalid UTF-8, empty; a third of the cases use an "
@@ -202,10 +203,31 @@ def gen_content(rng):
     return bytes(rng.randrange(256) for _ in range(rng.randint(1, 6))), "random"
 
 
+# other product / tool words that a template may contain as plain text (prefix, separator, suffix) or
+# instead of "designer"; a template is taken literally, none of them is a placeholder
+PRODUCT_WORDS = ["zero", "Zero", "ZERO", "gozero", "go_zero", "goctl", "god", "God", "design", "Design", "DESIGN",
+                 "frame", "micro", "kratos", "sign", "er", "model", "Model"]
+PRODUCT_STYLES = ["go_designer.zero", "zero_go_designer", "GoZeroDesigner", "gozero", "go_zero", "GoZero", "goZero", "GOZERO",
+                  "Go_Zero", "go_zero_designer", "goZeroDesigner", "zerogodesigner", "go_designer_zero", "GO#ZERO#DESIGNER",
+                  "godesignerzero", "zero", "go-zero", "go_design", "goDesign", "goctl_designer", "god_designer", "godesign",
+                  "go_designer.Zero.go", "ZERO", "gozerodesigner", "go_zero.designer", "zero.go", "designer_zero", "gomodel"]
+
+
+def gen_product_word(rng, kind):
+    w = rng.choice(PRODUCT_WORDS)
+    if kind == "between":
+        return b(rng.choice(["", "_", "."]) + w + rng.choice(["", "_", "."]))
+    if kind == "prefix":
+        return b(w + rng.choice(["", "_", ".", "-"]))
+    return b(rng.choice(["", "_", ".", "-"]) + w)
+
+
 def gen_affix(rng, kind):
     r = rng.random()
-    if r < 0.35:
+    if r < 0.30:
         return b""
+    if r < 0.38:
+        return gen_product_word(rng, kind)
     if r < 0.6:
         if kind == "between":
             return b(rng.choice(["_", "-", "#", ".", " ", "__", "_x_", "@", "/"]))
@@ -239,6 +261,18 @@ def gen_template(rng):
 
 
 def gen_template_core(rng, r):
+    if rng.random() < 0.07:   # styles with other product words, with and without "designer"
+        k = rng.random()
+        if k < 0.6:
+            return b(rng.choice(PRODUCT_STYLES)), "product"
+        g = rng.choice(GO_FORMS + GO_MIXED)
+        w = rng.choice(PRODUCT_WORDS)
+        sep = rng.choice(["", "_", "-", "."])
+        if k < 0.8:      # the product word where "designer" would stand: must be rejected
+            return b(g + sep + w), "product"
+        pos = rng.randrange(3)
+        d = rng.choice(DS_FORMS)
+        return b([w + sep + g + sep + d, g + sep + w + sep + d, g + sep + d + sep + w][pos]), "product"
     pre, mid, suf = gen_affix(rng, "prefix"), gen_affix(rng, "between"), gen_affix(rng, "suffix")
     if r < 0.50:
         return pre + b(rng.choice(GO_FORMS)) + mid + b(rng.choice(DS_FORMS)) + suf, "valid"
@@ -302,12 +336,14 @@ def h_fmt(i, c):
 
 
 H_STYLES = ["", "", "go_designer", "goDesigner", "GO#DESIGNER", "Go-Designer.go", "godesigner", " ", "\t", "\u3000",
-            " go_designer", "gO_designer", "designer_go", "x"]
+            " go_designer", "gO_designer", "designer_go", "x",
+            "go_designer.zero", "zero_go_designer", "GoZeroDesigner", "gozero", "go_zero", "goZero", "go_zero_designer",
+            "GO#ZERO#DESIGNER", "goctl_designer", "go_design", "zero", "ZERO_go_designer_Zero"]
 H_IDENTS = ["userCenter", "user_center", "HTTPServer", "a", "", "_x__y"]
 
 
 def gen_history(rng, t, c):
-    pool = H_STYLES + [t]
+    pool = H_STYLES + [t] + [rng.choice(PRODUCT_STYLES), rng.choice(PRODUCT_STYLES)]
     k = rng.random()
     if k < 0.3:       # the default twice, the owner writing over the first in between (a yaml load)
         v = rng.choice([x for x in pool if x != ""] + ["GO_DESIGNER"])
